@@ -9,7 +9,7 @@ from ..cfg import Node, cfg_of, node_calls, walk_own
 from ..closed import resolver
 from ..effects import effects
 from ..flow import const_flag_step, disjunctive, occurred_before
-from ..guard import fmt_table, lambda_table, return_table, truth_table
+from ..guard import walk,  fmt_table, lambda_table, return_table, truth_table
 from ..report import Ctx
 from ..src import AnalysisError, Func, norm, own_nodes
 from ..sym import Ref, Unknown
@@ -313,6 +313,11 @@ def run(ctx: Ctx) -> None:
         ctx.ob("C16.R3", bc, "timeout: the disconnect is for the same address", bool(c) and norm(c[0].args[0]) == "address", f"{[norm(a) for a in c[0].args] if c else None}")
     gd = [c for c in own_nodes(guard.node) if isinstance(c, ast.Call) and client.methods["bluetooth_device_disconnect"] in res.callees(guard, c).funcs]
     ctx.ob("C16.R3", guard, "guarded disconnect passes its address on", len(gd) == 1 and norm(gd[0].args[0]) == "address", "")
+    # ... and is issued unconditionally: no path through the guard function skips the disconnect request
+    gg_ = cfg_of(ctx, guard)
+    dn_ = [n for n in gg_.reachable() if any(c in gd for c in node_calls(n))]
+    skip = walk(gg_, {}, lambda n: None, blocked=set(dn_))
+    ctx.ob("C16.R3", guard, "the disconnect request is sent on every path of the guard (whatever the timeout value)", bool(dn_) and gg_.exit not in skip, "a path returns without asking the device to disconnect: the connection slot stays occupied although a timeout is reported")
     # registration is for the operation's own address
     f, args = partial_of(bc, reg.args[1]) if len(reg.args) >= 2 else (None, [])
     ctx.ob("C16.R1", bc, "connect: state callback bound to the operation's future, address and user callback", f is ctx.repo.func(cb, "on_bluetooth_device_connection_response") and args == ["connect_future", "address", "on_bluetooth_connection_state"], f"{args}")
